@@ -15,11 +15,13 @@ func c11Specs(tier string) []*Spec {
 	cold := Cfg{Fast: false, Cache: 0}
 	full := Alpha{Writes: true, Save: true, Rollback: true, Reopen: []reopenVar{{0, false, 0}}, DelTo: true, LVFO: true}
 	if tier == "quick" {
+		add("cold/emptykey/d5", cold, [][]byte{{}, []byte("a"), {0x00}, []byte("b")}, 5, writes, 0)
 		add("cold/7keys/d6", cold, k7, 6, writes, 0)
 		add("cold/3keys+maint/d5", cold, bs("a", "ab", "b"), 5, full, 2)
 		add("default/7keys/d5", defaultCfg, k7, 5, writes, 0)
 		return specs
 	}
+	add("cold/emptykey/d7", cold, [][]byte{{}, []byte("a"), {0x00}, []byte("b")}, 7, writes, 0)
 	add("cold/7keys/d8", cold, k7, 8, writes, 0)
 	add("cold/8keys-insert-only/d9", cold, k8, 9, Alpha{Writes: true, Save: true, NoRemove: true, MaxVersions: 1}, 0)
 	add("cold/3keys+maint/d7", cold, bs("a", "ab", "b"), 7, full, 2)
